@@ -146,6 +146,24 @@ def improvingRay (p : Prob Rat) : Bool :=
   | some v => v < 0
   | none => false
 
+/-- the relaxation has an improving recession direction that MOVES A FREE VARIABLE (exact, two LPs per free variable and
+sign: first the most improving boxed ray, value `v < 0`; then maximise `±d_j` over the boxed cone cut by `c·d ≤ v/2`). -/
+def improvingRayThroughFree (p : Prob Rat) : Bool :=
+  let lp := p.relax
+  let n := lp.bnds.length
+  match lpMinValue (coneLP p lp.obj []) with
+  | some v =>
+    v < 0 &&
+    (List.range n).any fun j =>
+      match lp.bnds[j]? with
+      | some ⟨none, none⟩ =>
+        [(1 : Rat), -1].any fun s =>
+          match lpMinValue (coneLP p (unitVec n j (-s)) [⟨lp.obj, .le, v / 2⟩]) with
+          | some w => w < 0
+          | none => false
+      | _ => false
+  | none => false
+
 /-! ### C05 -/
 
 /-- signature of the Satisfy/objective inconsistency: the model asks for ANY feasible point (`satisfy`) but carries
@@ -175,7 +193,15 @@ def checkVerdict (lm : LinModel (Ext Rat)) (solver : String) (r : ImplRes (Ext R
     match s.value with
     | .fin got => if close got v then okS [tag, encRat v] else viol "wrong-optimum" [.atom solver, encRat got, encRat v]
     | _ => viol "wrong-optimum" [.atom solver, .atom "non-finite", encRat v]
-  | .ok _ _, .infeasible => viol "solution-for-infeasible-model" [.atom solver]
+  | .ok s _, .infeasible =>
+    -- signature of a second Clarabel defect (dependency): on a model that is primal AND dual infeasible clarabel itself
+    -- ends `Solved` with an iterate that ran off (~1e25); the point rooc passes through violates a row of the model
+    let violates : Bool := match pointOf lm s with
+      | .ok x => !(checkPoint p x tol6)
+      | .error _ => false
+    if solver == "clarabel" && (rawStatus == "Solved" || rawStatus == "AlmostSolved") && violates && improvingRay p then
+      viol "clarabel-solved-on-primal-dual-infeasible-model" [.atom solver, .atom rawStatus]
+    else viol "solution-for-infeasible-model" [.atom solver]
   | .ok s _, .unbounded =>
     -- signature of the Clarabel defect (dependency): clarabel ITSELF ends with status `Solved` / `AlmostSolved` on an
     -- unbounded LP (its primal or dual iterate runs off along the unbounded direction and the stopping test fires
@@ -203,6 +229,12 @@ def checkVerdict (lm : LinModel (Ext Rat)) (solver : String) (r : ImplRes (Ext R
       viol "simplex-infeasible-reported-as-other" [.atom solver]
     -- "the simplex-based solvers always reach one of these three verdicts … through the dedicated kinds"; the
     -- interior-point path may give up (`Other("No progress")`, …): that is no verdict, hence not a wrong one
+    -- signature of a microlp defect (dependency): on a mixed-integer model whose relaxation is unbounded along a FREE
+    -- variable, the root LP is reported solved (when the start basis first has to be made feasible) and the unboundedness
+    -- only surfaces inside a branch & bound node as the internal error below
+    else if microlpBased && variant == "Other" && msg.startsWith "bounded B&B node reported unbounded" && isMip p &&
+        (sol.verdict matches .unbounded) && improvingRayThroughFree p then
+      viol "microlp-node-unbounded-free-variable" [.atom solver]
     else if solver == "clarabel" then okS [.atom "no-verdict", .atom variant, tag]
     else viol "no-dedicated-verdict" [.atom solver, .atom variant, tag]
   | .hang, _ =>
